@@ -448,7 +448,7 @@ func (tc *TC) react(s *Session, body interface{}, act Action) interface{} {
 			return message.GlobalBeginResponse{AbstractTransactionResponse: tx}
 		}
 		tc.nextXid++
-		xid := fmt.Sprintf("%s:%d", tc.Addr, tc.nextXid)
+		xid := fmt.Sprintf("%s:%d", s.addr, tc.nextXid)
 		tc.globals[xid] = &Global{Xid: xid, Name: b.TransactionName, Begins: 1, Status: message.GlobalStatusBegin}
 		tc.order = append(tc.order, xid)
 		return message.GlobalBeginResponse{AbstractTransactionResponse: tx, Xid: xid}
